@@ -89,6 +89,7 @@ type RPC struct {
 	Delivered bool        // the caller got the callee's reply (not an injected RPC error)
 	Meta      interface{} // harness bookkeeping (e.g. what a lookup was guaranteed to see)
 	ExecGen   int         // leader incarnation that ran the callee (curator-bound calls)
+	Orphan    bool        // its issuer (a curator task) has returned; the harness resolves it before anything else
 
 	exec   func() interface{}
 	fail   func() interface{}
